@@ -121,7 +121,8 @@ func lifeAlpha(o AlphaOpts) func(sc *Scenario, v *View) []Action {
 		out = append(out, o.BindOps...)
 		for _, ps := range o.ParamChanges {
 			p := ps
-			if v.Params.MaxRequestTimeout == p.MaxTimeout && v.Params.ServiceFeeTax.Equal(sdk.MustNewDecFromStr(p.Tax)) && v.Params.SlashFraction.Equal(sdk.MustNewDecFromStr(p.Slash)) && v.Params.MinDeposit.AmountOf(denom).Int64() == p.MinDeposit && v.Params.MinDepositMultiple == p.Multiple && v.Params.BaseDenom == p.baseDenom() {
+			if v.Params.MaxRequestTimeout == p.MaxTimeout && v.Params.ServiceFeeTax.Equal(sdk.MustNewDecFromStr(p.Tax)) && v.Params.SlashFraction.Equal(sdk.MustNewDecFromStr(p.Slash)) && v.Params.MinDeposit.AmountOf(denom).Int64() == p.MinDeposit && v.Params.MinDepositMultiple == p.Multiple && v.Params.BaseDenom == p.baseDenom() &&
+				v.Params.ArbitrationTimeLimit == p.Arbitration && v.Params.ComplaintRetrospect == p.Complaint {
 				continue // already in force
 			}
 			out = append(out, Action{Name: "gov(" + p.Name + ")", Kind: "gov", Tmpl: -1, Signer: XX,
